@@ -124,6 +124,50 @@ pub fn battery<T: Subj>(v: &T, panel: &[AnyBv], heavy: bool) -> Obs {
         put(&mut out, "copy_range.hi", || abs_string(&v.copy_range(n / 2..n)));
     }
     put(&mut out, "clone", || abs_string(&v.clone()));
+    // the vector as an ARGUMENT of later operations ("every subsequent operation gives the same result")
+    if heavy {
+        let pattern: Vec<bool> = (0..n + 70).map(|i| i % 3 != 1).collect();
+        for ltid in [TID_BVD, TID_BV, 1u8] {
+            let ll = pattern.len().min(FIXED_CAP[ltid as usize].unwrap_or(usize::MAX)).min(if ltid == 1 { 11 } else { usize::MAX });
+            let lb = &pattern[..ll];
+            let lname = TYPE_NAMES[ltid as usize];
+            put(&mut out, &format!("arg.append[{}]", lname), || {
+                let mut l = fresh_any(ltid, lb);
+                any!(&mut l, x => x.append(v));
+                abs_string_any(&l)
+            });
+            put(&mut out, &format!("arg.prepend[{}]", lname), || {
+                let mut l = fresh_any(ltid, lb);
+                any!(&mut l, x => x.prepend(v));
+                abs_string_any(&l)
+            });
+            put(&mut out, &format!("arg.insert[{}]", lname), || {
+                let mut l = fresh_any(ltid, lb);
+                any!(&mut l, x => x.insert(1.min(ll), v));
+                abs_string_any(&l)
+            });
+            if n <= 200 {
+                put(&mut out, &format!("arg.div_rem[{}]", lname), || {
+                    let l = fresh_any(ltid, lb);
+                    let d = v.clone().wrap();
+                    any!(&l, x => { let (q, r) = x.div_rem_any(&d); (abs_string(&q), abs_string(&r)) })
+                });
+            }
+            if OPERAND_TIDS.contains(&T::TID) {
+                let rhs = Rhs::V(v.clone().wrap());
+                for op in [0u8, 1, 2, 3, 6] {
+                    if op == 3 && n > 200 {
+                        continue;
+                    }
+                    put(&mut out, &format!("arg.binop{}[{}]", op, lname), || {
+                        let mut l = fresh_any(ltid, lb);
+                        any!(&mut l, x => x.binop(op, if op % 2 == 0 { 0 } else { 2 }, &rhs));
+                        abs_string_any(&l)
+                    });
+                }
+            }
+        }
+    }
     out
 }
 
